@@ -27,7 +27,7 @@ def main(tier, seed):
     rep.r.bounds = {"inductive_step": "arbitrary CheckpointState satisfying the invariant, unbounded ints/reals", "histories": f"<= {K} episodes from the initial state"}
     rep.r.assumptions = ["state invariant for the inductive step: 0<=episodes<max_episodes, timesteps>=0, max_episodes>=1",
                          "episode length >= 1, epoch >= 0, window-size threshold >= 0, max_episodes_when_checkpointing >= 1",
-                         "train_td7's use of the returned counts (release loop, checkpoint copy) is not covered by this check yet"]
+                         "train_td7 runs on the recording world (bounded steps) with the REAL assessment function and _train_step"]
 
     def step(ctx):
         st = cp.CheckpointState()
@@ -96,7 +96,56 @@ def main(tier, seed):
                 switches += 1
             ctx.check(switches <= 1, "history:window-switch-happens-at-most-once")
     rep.run("assess_performance_and_checkpoint:histories", history, fn="rl_blox.blox.checkpointing.assess_performance_and_checkpoint")
+    _td7_loop(rep, tier)
     return rep.finish()
+
+
+def _td7_loop(rep, tier):
+    """train_td7 with checkpoints: iterations released per assessment = what the real assessment returned = steps collected
+    since the previous release; checkpoint copy iff update_checkpoint; epoch advances by the released count."""
+    from props import loops as L
+    from props import loopworld as W
+
+    def prog(K):
+        def run(ctx):
+            tr = L.run_td7(ctx, K, 0, symbolic=("max_episodes_when_checkpointing", "steps_before_checkpointing"), use_checkpoints=True)
+            iters = {}
+            for (_, at, p) in tr.w.of("train_iteration"):
+                iters.setdefault(at, []).append(p["epoch"])
+            assess = {at: p for (_, at, p) in tr.w.of("assess")}
+            copies = {}
+            for (_, at, p) in tr.w.of("hard_target_net_update"):
+                if isinstance(p["args"][1], L.SalePolicyStub) and isinstance(p["args"][0], L.SalePolicyStub):
+                    copies.setdefault(at, []).append(p)
+            pending = 0
+            epoch = 0
+            total_released = 0
+            for k in range(1, tr.env.n_steps + 1):
+                pending += 1
+                st = tr.env.steps[k - 1]
+                ended = W.b_or(st["terminated"], st["truncated"])
+                n_it = len(iters.get(k, []))
+                if k in assess:
+                    a = assess[k]
+                    ctx.check(ended, "assessment-only-at-episode-ends")
+                    ctx.check(n_it == a["released"], "released-training-iterations=value-returned-by-the-assessment")
+                    ctx.check((a["released"] == 0) | (a["released"] == pending), "released-iterations=environment-steps-collected-since-the-previous-release")
+                    ctx.check((len(copies.get(k, [])) == 1) == a["update_checkpoint"], "checkpoint-copied-iff-the-assessment-says-so")
+                    ctx.check(a["epoch"] == epoch, "assessment-sees-the-number-of-training-iterations-done-so-far")
+                    for j, ep in enumerate(iters.get(k, [])):
+                        ctx.check(ep == epoch + j + 1, "epoch-advances-by-one-per-released-iteration")
+                    if n_it:
+                        epoch += n_it
+                        total_released += n_it
+                        pending = 0
+                else:
+                    ctx.check(n_it == 0, "no-training-between-assessments-in-deferred-mode")
+                    ctx.check(len(copies.get(k, [])) == 0, "checkpoint-changes-only-at-assessments")
+            ctx.check(total_released + pending == tr.env.n_steps, "released+pending=executed(no-step-lost-or-duplicated)")
+        return run
+    for K in ([3] if tier == "quick" else [3, 4, 5]):
+        rep.run(f"train_td7[use_checkpoints,K={K}]", prog(K), max_paths=200000 if tier != "quick" else 8000, fn="rl_blox.algorithm.td7.train_td7 + real assess_performance_and_checkpoint", site_of=lambda label: f"train_td7:{label}")
+    rep.r.bounds["train_td7_loop"] = "K<=6 steps, learning_starts=0, symbolic flags/rewards, symbolic window size and threshold"
 
 
 def replay(path):
